@@ -127,7 +127,7 @@ fn resolve<'a>(files: &'a [FileSpec], path: &str, depth: u32) -> Node<'a> {
         Some(f) => match &f.kind {
             Kind::File => Node::File(f),
             Kind::Dir => Node::Dir,
-            Kind::Hardlink(_) => Node::Missing,
+            Kind::Hardlink(_) | Kind::Fifo => Node::Missing,
             Kind::Symlink(t) => {
                 let target = if let Some(abs) = t.strip_prefix("/@ROOT/") {
                     abs.to_string()
